@@ -60,6 +60,38 @@ class CallMixin(ExprMixin):
                 _, v = self.ev1(e.args[0], st)
                 base = self.spec_old if self.spec_old is not None else self.entry
                 return [(st, V(BOOL, v.t >= base.nalloc))]
+            if n == "unchanged":
+                # unchanged(obj[, "f1", "f2"...]): the object's modelled fields equal their old values
+                _, v = self.ev1(e.args[0], st)
+                base = self.spec_old if self.spec_old is not None else self.entry
+                ty = v.ty.inner if isinstance(v.ty, Opt) else v.ty
+                flds = [a.value for a in e.args[1:]] or self.class_fields(ty.cls, st)
+                cs = []
+                for f in flds:
+                    fty = self.any_field_ty(ty.cls, f)
+                    cs.append(z3.Select(self.hmap(st, ty.cls, f, fty), v.t) == z3.Select(self.hmap(base, ty.cls, f, fty), v.t))
+                return [(st, V(BOOL, z3.And(cs) if cs else z3.BoolVal(True)))]
+            if n == "same_heap":
+                # same_heap("Class"[, "field"...]): no object of the class changed (whole-map frame)
+                base = self.spec_old if self.spec_old is not None else self.entry
+                cls = e.args[0].value
+                flds = [a.value for a in e.args[1:]] or self.class_fields(cls, st)
+                cs = []
+                for f in flds:
+                    fty = self.any_field_ty(cls, f)
+                    cs.append(self.hmap(st, cls, f, fty) == self.hmap(base, cls, f, fty))
+                return [(st, V(BOOL, z3.And(cs) if cs else z3.BoolVal(True)))]
+            if n == "same_except":
+                # same_except("Class", "field", ref...): the field map changed at most at the given objects
+                base = self.spec_old if self.spec_old is not None else self.entry
+                cls, f = e.args[0].value, e.args[1].value
+                fty = self.any_field_ty(cls, f)
+                m = self.hmap(base, cls, f, fty)
+                now = self.hmap(st, cls, f, fty)
+                for a in e.args[2:]:
+                    _, r = self.ev1(a, st)
+                    m = z3.Store(m, r.t, z3.Select(now, r.t))
+                return [(st, V(BOOL, now == m))]
             if n == "is_exc":
                 _, v = self.ev1(e.args[0], st)
                 return [(st, V(BOOL, self.exc_is(v.t, e.args[1].id if isinstance(e.args[1], ast.Name) else e.args[1].value)))]
@@ -107,7 +139,13 @@ class CallMixin(ExprMixin):
         names = [a.arg for a in lam.args.args]
         tys = []
         for i, n in enumerate(names):
-            tys.append(self.ev1(e.args[i], st)[1].t if i < len(e.args) - 1 else INT)
+            if i < len(e.args) - 1:
+                tn = e.args[i]
+                if not (isinstance(tn, ast.Name) and tn.id in C.SPEC_TYPES):
+                    raise Unsupported("quantifier type %s (register it in contract.SPEC_TYPES)" % ast.unparse(tn))
+                tys.append(C.SPEC_TYPES[tn.id])
+            else:
+                tys.append(INT)
         s = st.copy()
         bound = []
         for n, ty in zip(names, tys):
@@ -129,6 +167,29 @@ class CallMixin(ExprMixin):
         k = th.kind
         if k == "specfn":
             return [(st, C.SPECFNS[th.name](self, st, *args))]
+        if k == "tupctor":
+            tty = th.ty
+            vals = list(args)
+            if tty.names:
+                for nm in tty.names[len(vals):]:
+                    if nm not in kw:
+                        raise Unsupported("missing field %s of %s" % (nm, tty))
+                    vals.append(kw[nm])
+            cvs = []
+            for v, ity in zip(vals, tty.items):
+                cv = T.coerce(v, ity)
+                if cv is None:
+                    raise Unsupported("tuple field %s where %s expected (line %s)" % (v.ty, ity, self.cur_line))
+                cvs.append(cv)
+            return [(st, T.tup_mk(tty, cvs))]
+        if k == "sink":
+            y = st.ghost[th.ghost]
+            cv = T.coerce(args[0], y.ty.elem)
+            if cv is None:
+                raise Unsupported("sink %s receives %s" % (th.ghost, args[0].ty))
+            ln = T.list_len(y)
+            st.ghost[th.ghost] = T.list_mk(y.ty, z3.Store(T.list_arr(y), ln, cv.t), ln + T.intval(1).t)
+            return [(st, NONEV)]
         if k == "builtin":
             return self.call_builtin(st, th.name, args, kw, node)
         if k == "method":
@@ -450,6 +511,8 @@ class CallMixin(ExprMixin):
                 self.fork_raise(st, state == zero, "InvalidStateError")
                 self.fork_raise(st, state == T.intval(3).t, "CancelledError")
             exc = V(EXC, z3.Select(self.hmap(st, "Future", "exc"), f.t))
+            if not self.spec:
+                st.assume(z3.Implies(state == T.intval(2).t, z3.And(exc.t > 0, exc.t <= max(self.exc_names().values()))))
             if name == "exception":
                 oty = Opt(EXC)
                 return [(st, V(oty, z3.If(state == T.intval(2).t, exc.t, z3.IntVal(0))))]
@@ -529,6 +592,15 @@ class CallMixin(ExprMixin):
         return self.py_const(v)
 
     def apply_contract(self, st, con, recv, args, kw, node):
+        saved = self.fact_target
+        if self._ax_sink is None:
+            self.fact_target = st        # facts produced while evaluating the callee's clauses belong to the caller's path
+        try:
+            return self._apply_contract(st, con, recv, args, kw, node)
+        finally:
+            self.fact_target = saved
+
+    def _apply_contract(self, st, con, recv, args, kw, node):
         from . import source
         fnode = source.module(con.module).func(con.fname)
         env = self.bind_args(con, fnode, recv, args, kw, st)
@@ -537,6 +609,29 @@ class CallMixin(ExprMixin):
         call_st.env = env
         call_st.ghost = dict(st.ghost)
         tag = con.fname
+        if con.pure:
+            # A pure deterministic function of its (value) arguments: its result *is* a function of
+            # them, named by an uninterpreted symbol; what its own verification proved about `result`
+            # for all arguments holds of that symbol (instances added as facts).
+            args_v = [env[p] for p, _ in con.params]
+            uf = z3.Function("pure_" + _safe(con.qual), *([a.ty.sort() for a in args_v] + [con.ret.sort()]))
+            res = V(con.ret, uf(*[a.t for a in args_v]))
+            post_st = st.copy()
+            post_st.env = dict(env)
+            post_st.env["result"] = res
+            saved = self.unfold_on
+            self.unfold_on = False
+            facts = [self.spec_bool(expr, post_st, old=call_st) for _, expr in con.ensures_]
+            self.unfold_on = saved
+            if self._ax_sink is not None:
+                self._ax_sink.extend(facts)
+            else:
+                for f in facts:
+                    st.assume(f)
+            if not self.spec:
+                for label, expr in con.requires_:
+                    self.oblige(st, "pre", "%s:%s" % (tag, label), self.spec_bool(expr, call_st, old=call_st), node.lineno)
+            return [(st, res)]
         if not self.spec:
             for label, expr in con.requires_:
                 g = self.with_mode_of(con, lambda: self.spec_bool(expr, call_st, old=call_st))
@@ -557,8 +652,10 @@ class CallMixin(ExprMixin):
                 self.havoc_modifies(s2, con, env)
                 es = s2.copy()
                 es.env = dict(env)
+                ft, self.fact_target = self.fact_target, (s2 if self.fact_target is not None else None)
                 for _, ex_expr in ens:
                     s2.assume(self.spec_assume(ex_expr, es, old=call_st))
+                self.fact_target = ft
             ids = self.exc_subclass_ids(exc)
             ev = self.fresh(EXC, "exc")
             s2.assume(z3.Or([ev.t == i for i in ids]))
@@ -568,6 +665,8 @@ class CallMixin(ExprMixin):
         if is_async and not self.spec:
             self.yield_point(normal_st, node)
         self.havoc_modifies(normal_st, con, env)
+        if not self.spec:
+            self.alloc_boundary(normal_st)       # the callee may have allocated
         res = NONEV
         if con.ret is not None and con.ret != NONE:
             res = self.fresh(con.ret, "ret_" + tag.split(".")[-1])
@@ -588,15 +687,19 @@ class CallMixin(ExprMixin):
         self.exc_id(name)
         return [i for n, i in self.exc["ids"].items() if name in self.exc["anc"].get(n, {n})]
 
-    def havoc_modifies(self, st, con_or_model, env):
+    def havoc_modifies(self, st, con_or_model, env, only=None):
+        """only: optional set of (class, field) — restrict the havoc to those maps."""
         mods = con_or_model.modifies_ if hasattr(con_or_model, "modifies_") else con_or_model.modifies
         for loc in mods:
             head, _, f = loc.rpartition(".")
             if head in C.CLASSES or head == "Future":
                 for fld in self.class_fields(head, st):
+                    if only is not None and (head, fld) not in only and (head, "*") not in only:
+                        continue
                     if f == "*" or f == fld or (f == "res" and fld.startswith("res:")):
                         ty = self.any_field_ty(head, fld)
                         st.heap[(head, fld)] = z3.FreshConst(z3.ArraySort(z3.IntSort(), ty.sort()), "hv_%s_%s" % (head, _safe(fld)))
+                        self.pending_valid(st, ty, st.heap[(head, fld)], whole_map=True)
                 continue
             s = st.copy()
             s.env = dict(env)
@@ -608,12 +711,18 @@ class CallMixin(ExprMixin):
             rty = hv.ty.inner if isinstance(hv.ty, Opt) else hv.ty
             if not isinstance(rty, Ref):
                 raise Unsupported("modifies location %s is not a reference" % loc)
+            saved_spec, self.spec = self.spec, 0
+            self.assume_valid(st, hv)          # it was read from the heap: it denotes an allocated object
+            self.spec = saved_spec
             cls = rty.cls
             for fld in self.class_fields(cls, st):
+                if only is not None and (cls, fld) not in only and (cls, "*") not in only:
+                    continue
                 if f == "*" or f == fld or (f == "res" and fld.startswith("res:")):
                     ty = self.any_field_ty(cls, fld)
                     nv = z3.FreshConst(ty.sort(), "hv_%s_%s" % (cls, _safe(fld)))
                     st.heap[(cls, fld)] = z3.Store(self.hmap(st, cls, fld, ty), hv.t, nv)
+                    self.pending_valid(st, ty, nv, whole_map=False)
 
     def class_fields(self, cls, st):
         if cls == "Future":
@@ -654,6 +763,8 @@ class CallMixin(ExprMixin):
         if cm.havoc_all:
             self.yield_point(st, node)
         self.havoc_modifies(st, cm, call_st.env)
+        if not cm.havoc_all:
+            self.alloc_boundary(st)
         res = NONEV
         if cm.returns is not None and cm.returns != NONE:
             if isinstance(cm.returns, str):
